@@ -13,7 +13,15 @@ for name in sorted(M):
     first = [r for r in meta.get('ran', []) if r.get('violation_lines')]
     caught_first = meta.get('caught_by') or []
     now = ', '.join('%s %s' % (c, m['tier']) for c in m['caught_by']) if m.get('applies_to_head') else 'patch no longer applies'
-    hist = 'caught when first seeded' if caught_first else 'missed when first seeded, caught after the check was strengthened' if m['caught_by'] else 'MISSED'
+    if meta.get('missed_before_strengthening'):
+        hist = 'missed when first tried, caught after the check was strengthened'
+    elif caught_first and name[-1] in 'ab':
+        hist = 'caught when first seeded'
+    elif caught_first:
+        # waves 2 and 3 were tried against the checks before being stored; the prose above lists what was strengthened
+        hist = 'caught when stored (see the list above for what was strengthened beforehand)'
+    else:
+        hist = 'missed when first seeded, caught after the check was strengthened' if m['caught_by'] else 'MISSED'
     rows.append('| %s | %s | %s | %s |' % (name, title, now or '**missed**', hist))
 block = ['<!-- SEEDED-TABLE-BEGIN -->', '| seeded change | what it does (first line of its notes) | caught by (current tree) | history |', '|---|---|---|---|'] + rows + ['<!-- SEEDED-TABLE-END -->']
 p = os.path.join(V, 'DESIGN.md')
